@@ -651,6 +651,21 @@ fn flatten_glyph(context: &Context, glyph: &Glyph) -> Result<(), BadGlyph> {
         }
         inst.components = simple;
     }
+    // Composing nested transforms can push a 2x2 out of the F2Dot14 [-2.0, 2.0]
+    // range even when every transform on the way was within it (1.5 * 1.5), and
+    // fontbe would saturate it. The overflow flag was computed before we edited
+    // the components in place, so rebuild the glyph to refresh it, and decompose
+    // in that case, as is done for glyphs whose own components overflow.
+    // https://github.com/googlefonts/fontc/issues/1638
+    let glyph = GlyphBuilder::from(glyph).build()?;
+    if glyph.has_overflowing_component_transforms() {
+        log::debug!(
+            "Decomposing '{}' into a simple glyph: flattened component transforms \
+                overflow F2Dot14 [-2.0, 2.0] range",
+            glyph.name
+        );
+        return convert_components_to_contours(context, &glyph);
+    }
     context.glyphs.set(glyph);
     Ok(())
 }
@@ -1576,6 +1591,27 @@ mod tests {
         test_data.write_to(&context);
         apply_optional_transformations(&context, &test_data.glyph_order()).unwrap();
         assert_is_flattened_component(&context, test_data.deep_component.name);
+    }
+
+    #[test]
+    fn flatten_decomposes_when_composed_transform_overflows() {
+        // each scale fits F2Dot14, their product (2.25) does not
+        let context = test_context();
+        let shape = static_contour_glyph("shape");
+        let c1 = static_component_glyph("c1", "shape".into(), Affine::scale(1.5));
+        let c2 = static_component_glyph("c2", "c1".into(), Affine::scale(1.5));
+        context.glyphs.set(shape.clone());
+        context.glyphs.set(c1.clone());
+        context.glyphs.set(c2.clone());
+
+        flatten_glyph(&context, &c1).unwrap();
+        flatten_glyph(&context, &c2).unwrap();
+
+        assert_is_flattened_component(&context, c1.name);
+        assert_is_simple_glyph(&context, c2.name.clone());
+        let expected = Affine::scale(2.25) * shape.default_instance().contours[0].clone();
+        let c2 = context.get_glyph(c2.name);
+        assert_eq!(vec![expected], c2.default_instance().contours);
     }
 
     #[test]
